@@ -263,6 +263,9 @@ def run(check, repo, tier):
                           "statement": r["items"][0][2] if r["items"][0][0] == "ok" else r["items"][0][3]})
     check.floor(not (n_ok < 500), f"C08.R1: only {n_ok} delivered statements analysed (floor 500)")
     P = cr.program
+    check.rule("R6", "a coordinate is not altered between the request and number(): Point.from_vector returns its first three components exactly (rule of C04)")
+    from .c04 import point_vector_rule
+    point_vector_rule(check, P, "R6")
     n2 = check_number(check, P)
     n4 = check_parameters(check, P)
     check_line_endings_writer(check, P)
